@@ -12,7 +12,7 @@ ap.add_argument('--needs', default='')
 ap.add_argument('--skip-existing', action='store_true')
 a = ap.parse_args()
 SRC = f'/tmp/seeded_out/{a.id}/{a.variant}'
-WT = '/tmp/wt/confirm'
+WT = os.environ.get('CONFIRM_WT', '/tmp/wt/confirm')
 OUT = f'/verif/seeded/{a.id}-{a.variant}'
 env = dict(os.environ, GOFLAGS='-mod=mod', GOPROXY='off')
 for kv in a.env:
